@@ -1,10 +1,10 @@
-\* quick: 2 certKeys, 1 caller x 2 calls, stopRenew goroutine, clock 0..4, CA and Cache.Put may fail
+\* quick: 2 certKeys, 1 caller x 2 calls, stopRenew goroutine, clock 0..3, CA may fail
 SPECIFICATION Spec
 CONSTANTS
   Keys = {"a", "b"}
   Callers = {"g1"}
   MaxCalls = 2
-  MaxT = 4
+  MaxT = 3
   Life = 4
   Thr = 2
   MaxJit = 1
@@ -12,7 +12,7 @@ CONSTANTS
   RetryHi = 2
   MaxCerts = 2
   CAOutcomes = {"ok", "fail"}
-  PutOutcomes = {"ok", "fail"}
+  PutOutcomes = {"ok"}
   Preload = {"a"}
   WithStop = TRUE
 INVARIANTS T1_OneTimer T3_StopFinal T4_RenewReplaces T4b_Deferred T45_Rearmed T5_FailKeeps T7_Monotone T9_LoopAlive T10_ExpiredOnlyWhileDueOrFailing T11_KeyMatch
